@@ -351,6 +351,11 @@ def gen_C09(w, tier):
                 for side2 in "ABS":
                     n_ = w.sid()
                     o = sc.do("restore %d %s %d %s" % (n_, side2, psB.pid, hx(data)))
+                    if o != "ok":
+                        # a refusal must be stable: the same attempt again must not go through
+                        o_again = sc.do("restore %d %s %d %s" % (n_, side2, psB.pid, hx(data)))
+                        if o_again == "ok":
+                            o = "ok"
                     st = fin = None
                     if o == "ok":
                         st = sc.do("state %d" % n_)
@@ -464,6 +469,8 @@ def gen_C10(w, tier):
             up["password"] = up["password"].upper()
             variants.append(("impl-uppercase-hex", json.dumps(up).encode()))
         orig = sc.finish(a, peer)
+        s_after = sc.do("ser %d" % a)          # the state object describes the same session before and after finish()
+        sc.meta["s_after"] = s_after
         for (vn, data) in variants:
             n_ = w.sid()
             o = sc.do("restore %d %s %d %s" % (n_, side, ps.pid, hx(data)))
@@ -498,6 +505,8 @@ def gen_C10(w, tier):
                 return "xy_scalar is not the fixed-width scalar encoding"
             if len(d["hashed_params"]) != 64:
                 return "hashed_params is not a SHA-256 hex digest"
+            if mt.get("s_after") != mt["s"]:
+                return "serialize() after finish() no longer describes the session (differs from the state before finish())"
             for (vn, o, st, k) in mt["rec"]:
                 if o != "ok":
                     return "released-format state (%s) refused: %s" % (vn, o)
